@@ -574,6 +574,35 @@ def check_keys(env, res):
             res.mismatch(case, {'same': model_same}, {'same': impl_same})
 
 
+def check_loader_dimension(env, res):
+    """(loader, parent, name): the same (parent, name) asked of two loaders must reach each loader's own
+    get_pipeline_definition and keep two entries."""
+    import pypyr.cache.loadercache as m
+    made = []
+
+    def fake_load_the_loader(loader_name):
+        def gpd(pipeline_name, parent):
+            made.append(loader_name)
+            return {'by': loader_name}
+        return m.Loader(loader_name, gpd)
+    old = m.load_the_loader
+    m.load_the_loader = fake_load_the_loader
+    try:
+        for parent, name in [(None, 'a'), ('/x/a', 'b+c'), ('/x/a+b', 'c')]:
+            lc = m.LoaderCache()
+            made.clear()
+            got = [lc.get_pype_loader(ln).get_pipeline(name=name, parent=parent).pipeline['by']
+                   for ln in ('vla', 'vlb', 'vla', 'vlb')]
+            case = {'kind': 'loaders', 'parent': parent, 'name': name}
+            res.case(case)
+            res.count('key:loader-dimension')
+            if got != ['vla', 'vlb', 'vla', 'vlb'] or made != ['vla', 'vlb']:
+                res.violation(case, f'two loaders asked for ({parent}, {name}) received {got}; creator calls {made}',
+                              signature={'clause': 'pipeline_key', 'cache': 'LoaderCache'}, impl={'got': got, 'made': list(made)})
+    finally:
+        m.load_the_loader = old
+
+
 def check_real_files(env, res):
     """Real file loader, real directories and files with '+' in their names: every (parent, name)
     request must get the pipeline from its own file."""
@@ -753,6 +782,7 @@ def run(env, res):
                     res.samples += samples[:3 - len(res.samples)]
     # 4. keys, files, sys.path
     check_keys(env, res)
+    check_loader_dimension(env, res)
     check_real_files(env, res)
     check_syspath(env, res)
 
@@ -767,6 +797,8 @@ def replay(env, res, payload):
         res.extra['replayed'] = {'impl': impl, 'model': model}
     elif kind == 'key':
         check_keys(env, res)
+    elif kind == 'loaders':
+        check_loader_dimension(env, res)
     elif kind == 'files':
         check_real_files(env, res)
     elif kind == 'syspath':
